@@ -10,6 +10,7 @@ import M4ri.Transpose
 import M4ri.MulW
 import M4ri.Elim
 import M4ri.Glue
+import M4ri.TrsmBase
 import M4ri.PleRussian
 import M4ri.M4riElim
 import M4ri.Io
@@ -427,6 +428,21 @@ def runOpAlg (op : String) (a : Array Val) : R (Array Val × Option (Array Val))
     let A ← argMat a 0; let P ← argPerm a 1; let Q ← argPerm a 2; let k ← argNat a 3; let L2 ← argNat a 4
     let o := if op == "ple_russian_exact" then PR.pleRussian A.toB P Q k L2 else PR.pluqRussian A.toB P Q k L2
     pure (#[.int o.2.2.2, inPlace A o.1, .perm o.2.1, .perm o.2.2.1], none)
+  | "trsm_ll_exact" | "trsm_ul_exact" | "trsm_ur_exact" | "trsm_lr_exact" | "trtri_upper_exact" =>
+    -- T B L1 L2 L3 sse2 (trtri: U L1 L2 L3 sse2): the complete routines of triangular.c (recursion + word kernels +
+    -- Four-Russians base cases) with the regime parameters of the build under test
+    let T ← argMat a 0
+    let off := if op == "trtri_upper_exact" then 1 else 2
+    let L1 ← argNat a off; let L2 ← argNat a (off + 1); let L3 ← argNat a (off + 2); let sse ← argNat a (off + 3)
+    let P : TB.Params := ⟨Gen.mulBlocksize L1 L2 L3, L2, L3, sse ≠ 0⟩
+    if op == "trtri_upper_exact" then pure (#[inPlace T (TB.trtriUpperC P T.toB)], none) else
+    let B ← argMat a 1
+    let X := match op with
+      | "trsm_ll_exact" => TB.trsmLowerLeftC P T.toB B.toB
+      | "trsm_ul_exact" => TB.trsmUpperLeftC P T.toB B.toB
+      | "trsm_ur_exact" => TB.trsmUpperRightC P T.toB B.toB
+      | _ => TB.trsmLowerRightC T.toB B.toB
+    pure (#[inPlace B X], none)
   | "glue_echelonize" =>
     -- S P Q r A0 full : `mzd_echelonize_pluq`
     let S ← argMat a 0; let P ← argPerm a 1; let Q ← argPerm a 2; let r ← argNat a 3; let A ← argMat a 4
